@@ -94,6 +94,11 @@ type c02Env struct {
 	cepoch     map[int64]uint64      // offset -> leader epoch of the committed message
 	selfAppend string                // set once such an append was identified in this scenario
 	lastPart   map[string]*partition // server -> partition object last seen by the observer
+	// fpClass is appended to the fingerprint of every violation of the
+	// scenario: families whose scenarios differ from the others in one named
+	// dimension (c02_rfmax_test.go: how the stream's replication factor is
+	// expressed) say so in the fingerprint.  Set before the observers start.
+	fpClass string
 }
 
 type c02Trunc struct {
@@ -170,6 +175,9 @@ func (e *c02Env) failAt(fp, what, replica string, offset int64) {
 	if cut, ok := e.fallbackLoss[replica]; ok && replica != "" && cut <= offset {
 		e.fallbackHit = true
 	}
+	if e.fpClass != "" && !strings.Contains(fp, e.fpClass) {
+		fp += e.fpClass
+	}
 	if e.selfAppend != "" && !strings.HasSuffix(fp, c02SelfAppendSuffix) {
 		fp += c02SelfAppendSuffix
 		what += " [" + e.selfAppend + "]"
@@ -217,6 +225,10 @@ func c02Digest(r vfLogRec) uint64 {
 
 // c02FamilyCfg lets a family adjust the servers' configuration (c02_gates_test.go).
 var c02FamilyCfg = map[string]func(*Config){}
+
+// c02FamilyStream lets a family adjust the request its scenario's stream is
+// created with (c02_rfmax_test.go); the default is an explicit RF of 3.
+var c02FamilyStream = map[string]func(*client.CreateStreamRequest){}
 
 func c02NewEnv(rep *kit.Report, family string, seed uint64) (*c02Env, error) {
 	e := &c02Env{rep: rep, family: family, seed: seed, stream: "c02s", subject: "c02s.subj",
@@ -390,7 +402,11 @@ func c02NewEnv(rep *kit.Report, family string, seed uint64) (*c02Env, error) {
 		e.mu.Unlock()
 		return nil
 	})
-	if err := c.CreateStream(&client.CreateStreamRequest{Subject: e.subject, Name: e.stream, ReplicationFactor: 3}); err != nil {
+	req := &client.CreateStreamRequest{Subject: e.subject, Name: e.stream, ReplicationFactor: 3}
+	if f := c02FamilyStream[family]; f != nil {
+		f(req)
+	}
+	if err := c.CreateStream(req); err != nil {
 		e.close()
 		return nil, err
 	}
@@ -679,7 +695,7 @@ func (e *c02Env) observeNode(n *vfNode, label string) {
 				what := fmt.Sprintf("replica %s (%s) holds %q (epoch %d) at offset %d which is <= its HW %d, but %s showed %q committed at that offset",
 					n.ID, label, r.Value, r.Epoch, r.Offset, hw, e.commitBy[r.Offset], e.tags[r.Offset])
 				quiet := e.quietOracle
-				fp := "C02:divergence-below-hw"
+				fp := "C02:divergence-below-hw" + e.fpClass
 				if e.selfAppendedAfterTruncation(n.ID, r) {
 					e.selfAppend = fmt.Sprintf("replica %s wrote offset %d itself, under epoch %d which it had led, after it had been deposed and had truncated its log (targets %v)", n.ID, r.Offset, r.Epoch, c02TruncTargets(e.truncs[n.ID]))
 					fp += c02SelfAppendSuffix
@@ -1249,7 +1265,7 @@ func TestVerifC02(t *testing.T) {
 	if family == "F7" {
 		n = kit.Scale(2, 10) // the decisive election outcome is a coin flip
 	}
-	if family == "F8" || family == "F9" || family == "F11" {
+	if family == "F8" || family == "F9" || family == "F11" || family == "F17" {
 		n = kit.Scale(2, 8)
 	}
 	if family == "F10" {
@@ -1316,7 +1332,7 @@ func TestVerifC02(t *testing.T) {
 		covered := e.covered
 		steps := append([]string(nil), e.steps...)
 		e.mu.Unlock()
-		if (family == "F12" || family == "F13" || family == "F14") && !covered {
+		if (family == "F12" || family == "F13" || family == "F14" || family == "F17") && !covered {
 			complete = false // ran, but did not reach the situation the family is about
 		}
 		if complete && (changes >= 2 || family == "F6" || family == "F12") && (family != "F8" || e.f8Reached) && (family != "F9" || e.f9Reached) && (family != "F11" || e.f11Reached) {
